@@ -71,10 +71,27 @@ func c11Dial(c *Ctx) {
 	for _, p := range ps {
 		var fnCall ssa.CallInstruction
 		var seq []ssa.Instruction
-		p.Instrs(func(in ssa.Instruction) { seq = append(seq, in) })
+		// calls of Dial's fn parameter, directly or through a helper that receives it
+		isFn := map[ssa.Instruction]bool{}
+		doneRecv := map[ssa.Instruction]*an.Expr{}
+		p.Instrs(func(in ssa.Instruction) {
+			seq = append(seq, in)
+			if ci, ok := in.(ssa.CallInstruction); ok && !ci.Common().IsInvoke() {
+				if isParamCall(ci.Common(), dial, "fn") {
+					isFn[in] = true
+				} else if _, isPar := ci.Common().Value.(*ssa.Parameter); isPar {
+					if e := p.Of(ci.Common().Value); e.Op == an.OpParam && e.Fn == dial && e.Name == "fn" {
+						isFn[in] = true
+					}
+				}
+				if fa, ok := fieldLoadCall(ci.Common(), PkgSystem, "DialContext", "done"); ok {
+					doneRecv[in] = p.Of(fa.X)
+				}
+			}
+		})
 		idxFn := -1
 		for i, in := range seq {
-			if ci, ok := in.(ssa.CallInstruction); ok && isParamCall(ci.Common(), dial, "fn") {
+			if ci, ok := in.(ssa.CallInstruction); ok && isFn[in] {
 				if fnCall != nil {
 					c.R.Fail("R-C11-1", fn+":fn-called-twice@"+pathShape(p), fn, c.pos(ci.Pos()), "fn invoked twice on one path", "one task invocation per dial", "task function invoked twice for one DialContext")
 				}
@@ -88,7 +105,12 @@ func c11Dial(c *Ctx) {
 		}
 		nFn++
 		key := fn + ":cleanup-after-fn@" + pathKind(p) + ":" + lastAtomName(p)
-		dctxArg := p.Of(fnCall.Common().Args[len(fnCall.Common().Args)-1])
+		var dctxArg *an.Expr
+		p.Instrs(func(in ssa.Instruction) {
+			if in == ssa.Instruction(fnCall) {
+				dctxArg = p.Of(fnCall.Common().Args[len(fnCall.Common().Args)-1])
+			}
+		})
 		// dctx must be result #0 of this iteration's init call.
 		b, idx := stripExtract(dctxArg)
 		okFresh := idx == 0 && exprCallIs(b, PkgSystem, "Dialer", "init")
@@ -100,12 +122,12 @@ func c11Dial(c *Ctx) {
 			if !ok {
 				continue
 			}
-			if fa, ok := fieldLoadCall(ci.Common(), PkgSystem, "DialContext", "done"); ok {
+			if _, ok := fieldLoadCall(ci.Common(), PkgSystem, "DialContext", "done"); ok {
 				if i < idxFn {
 					before++
 				}
 				nDone++
-				if !sameValue(p.Of(fa.X), dctxArg) {
+				if !sameValue(doneRecv[in], dctxArg) {
 					sameCtx = false
 				}
 			}
